@@ -90,6 +90,11 @@ fn main() {
             let out = keypool::add_odd(&std::fs::read_to_string(path).unwrap());
             std::fs::write(path, out).unwrap();
         }
+        Some("genkeys-exp") => {
+            let path = concat!(env!("CARGO_MANIFEST_DIR"), "/data/rsa_pool.json");
+            let out = keypool::add_exponents(&std::fs::read_to_string(path).unwrap());
+            std::fs::write(path, out).unwrap();
+        }
         Some("genkeys") => {
             let out = keypool::generate(8, 4);
             std::fs::write(concat!(env!("CARGO_MANIFEST_DIR"), "/data/rsa_pool.json"), out).unwrap();
